@@ -12,6 +12,19 @@ Enumerated: the full product
 The way the paths are written on the command line (absolute / relative to the working directory) is derived from
 the configuration id, so both spellings occur all over the product without doubling it.
 
+On top of the product: the *directory layout family* (192 configurations)
+    language x --generate-support x --omit-serialization-support
+    x {--support-templates only: top / nested / mixed; --templates + --support-templates: nested / mixed;
+       --templates only: mixed}
+(the remaining options rotate with the index).  "top" is the layout of the product (every template at the top level of
+the directory: a real override).  "nested": the user support directory holds the templates named like the built-in
+support templates ONLY in sub-directories (c/ cpp/ <language>/ old/ old/deeper/): jinja resolves a template by its
+path relative to the directory, so these override nothing and the built-in template is still the one rendered.
+"mixed": a real top-level override next to such same-named copies at the other depths.  In both, near-miss names
+(old_<name>, <name>.bak) sit at the top level, and a user --templates directory carries the same copies of all its
+top-level templates (there a nested <Type>.j2 may well be the one picked for a type: the oracle does not care who wins,
+only that whatever influences the output is named).
+
 Every configuration is driven through the real CLI entry (nunavut.cli.main, in-process) inside a private sandbox
 directory that encloses the DSDL roots, the user template directories, the working directory and the output directory.
 
@@ -62,6 +75,12 @@ STEM = ["default", "ns_"]
 NSSET = ["flat", "nested", "lookup"]
 DIMS = ["lang", "support", "omit", "nst", "tpl", "ext", "stem", "nsset"]
 DOMAINS = dict(lang=LANGS, support=SUPPORT, omit=OMIT, nst=NSTYPES, tpl=TEMPLATES, ext=EXT, stem=STEM, nsset=NSSET)
+
+# Directory layout family: where, inside a user template directory, files named like the templates in use live.
+LAYOUTS = ["top", "nested", "mixed"]
+NEST_DIRS = ["c", "cpp", "old", "old/deeper"]  # + the target language's own name (sibling folders per language)
+# (tpl, layout) pairs of the family; "support" = --support-templates without --templates (only in the family)
+FAMILY_KINDS = [("support", "top"), ("support", "nested"), ("support", "mixed"), ("user+support", "nested"), ("user+support", "mixed"), ("user", "mixed")]
 
 SLOT = "# C08-SLOT"
 MUT_FIELD = "uint8 c08_mutation_field"
@@ -174,14 +193,19 @@ MODES = [
 ]
 
 
+def layout_of(c: dict) -> str:
+    return c.get("layout", "top")
+
+
 def cfg_id(c: dict) -> str:
-    return "/".join(f"{k}={c[k]}" for k in DIMS)
+    # configurations of the product keep the id they always had (slices, path styles and recorded cases depend on it)
+    return "/".join(f"{k}={c[k]}" for k in DIMS) + ("" if "layout" not in c else "/layout=" + c["layout"])
 
 
 def _non_default(c: dict) -> int:
     return (
         (c["support"] != "as-needed") + c["omit"] + c["nst"] + (c["tpl"] != "builtin") * (1 + (c["tpl"] == "user+support"))
-        + (c["ext"] != "default") + (c["stem"] != "default") + (c["nsset"] != "flat")
+        + (c["ext"] != "default") + (c["stem"] != "default") + (c["nsset"] != "flat") + (layout_of(c) != "top")
     )
 
 
@@ -202,6 +226,40 @@ def all_configs() -> typing.List[dict]:
                                     out.append(
                                         dict(lang=lang, support=support, omit=omit, nst=nst, tpl=tpl, ext=ext, stem=stem, nsset=nsset)
                                     )
+    return out
+
+
+def family_configs() -> typing.List[dict]:
+    """The directory layout family: lang x support x omit x FAMILY_KINDS; the other options rotate with the index."""
+    out = []
+    k = 0
+    for lang in LANGS:
+        for tpl, layout in FAMILY_KINDS:
+            for support in SUPPORT:
+                for omit in OMIT:
+                    out.append(
+                        dict(lang=lang, support=support, omit=omit, nst=k % 2, tpl=tpl, ext=EXT[(k // 2) % 2], stem=STEM[(k // 4) % 2],
+                             nsset=NSSET[k % 3], layout=layout)
+                    )
+                    k += 1
+    return out
+
+
+def family_core(fam: typing.List[dict]) -> typing.List[dict]:
+    """Quick core of the family: per language with support templates, the nested layout of a support-only directory in
+    every mode that generates support, and one configuration of every other kind; for html (no support templates) the
+    two kinds that have a --templates directory."""
+    out = []
+    for lang in LANGS:
+        has_support = lang != "html"
+        for tpl, layout in FAMILY_KINDS:
+            if not has_support and tpl == "support":
+                continue
+            want = [("as-needed", 0)]
+            if has_support and (tpl, layout) == ("support", "nested"):
+                want = [("as-needed", 0), ("only", 0), ("always", 0), ("only", 1)]
+            for support, omit in want:
+                out += [c for c in fam if (c["lang"], c["tpl"], c["layout"], c["support"], c["omit"]) == (lang, tpl, layout, support, omit)]
     return out
 
 
@@ -349,7 +407,10 @@ def build_sandbox(c: dict, sb: pathlib.Path) -> None:
         shutil.rmtree(sb)
     sb.mkdir(parents=True)
     gen.write_ns(sb, DSDL_SETS[c["nsset"]][2])
-    if c["tpl"] != "builtin":
+    layout = layout_of(c)
+    if layout not in LAYOUTS:
+        raise HarnessError(f"unknown layout {layout!r}")
+    if c["tpl"] in ("user", "user+support"):
         _copy_resources(_lang_dir(c["lang"]) / "templates", sb / "tpl")
         if c["lang"] in ("c", "cpp"):
             # the built-in C/C++ template sets have no namespace template; a user set may have one
@@ -359,13 +420,37 @@ def build_sandbox(c: dict, sb: pathlib.Path) -> None:
         gen.write_ns(sb / "tpl", {k: v[0] for k, v in TPL_RESOURCES.items()})
         (sb / "tpl" / "DelimitedType.j2").rename(sb / "tpl" / "c08_orig_DelimitedType.j2")
         (sb / "tpl" / "DelimitedType.j2").write_text(SILENT_WRAPPER)
-    if c["tpl"] == "user+support":
+        if layout != "top":
+            # FIND_FIRST: a --templates directory has to be complete at its top level, so "nested" and "mixed" are the same
+            _scatter_same_named(sb / "tpl", c["lang"], keep_top=True)
+    if c["tpl"] in ("support", "user+support"):
         _copy_resources(_lang_dir(c["lang"]) / "support", sb / "stpl")
         hosts = sorted((sb / "stpl").glob("*.j2"))
         for host in hosts:
             host.write_text(host.read_text(encoding="utf-8") + STPL_SNIPPET, encoding="utf-8")
         if hosts:
             gen.write_ns(sb / "stpl", {k: v[0] for k, v in STPL_RESOURCES.items()})
+        if layout != "top":
+            _scatter_same_named(sb / "stpl", c["lang"], keep_top=(layout == "mixed"))
+
+
+def nest_dirs(lang: str) -> typing.List[str]:
+    return NEST_DIRS + ([] if lang in NEST_DIRS else [lang])
+
+
+def _scatter_same_named(d: pathlib.Path, lang: str, keep_top: bool) -> None:
+    """Puts a copy of every top-level template of the directory into each of the nested directories (same file name,
+    other depth: jinja never resolves "<name>" to them), and near-miss names next to the originals; without
+    keep_top the top-level templates themselves are removed afterwards (nothing is left that overrides)."""
+    for t in sorted(d.glob("*.j2")):
+        text = t.read_text(encoding="utf-8")
+        for nd in nest_dirs(lang):
+            (d / nd).mkdir(parents=True, exist_ok=True)
+            (d / nd / t.name).write_text(text + "\n{# C08: copy of " + t.name + " kept under " + nd + "/ #}\n", encoding="utf-8")
+        (d / ("old_" + t.name)).write_text(text + "\n{# C08: near-miss name #}\n", encoding="utf-8")
+        (d / (t.name + ".bak")).write_text(text + "\n{# C08: near-miss suffix #}\n", encoding="utf-8")
+        if not keep_top:
+            t.unlink()
 
 
 def build_argv(c: dict, sb: pathlib.Path, flags: typing.Sequence[str]) -> typing.List[str]:
@@ -383,9 +468,9 @@ def build_argv(c: dict, sb: pathlib.Path, flags: typing.Sequence[str]) -> typing
         a.append("--omit-serialization-support")
     if c["nst"]:
         a.append("--generate-namespace-types")
-    if c["tpl"] != "builtin":
+    if c["tpl"] in ("user", "user+support"):
         a += ["--templates", P("tpl")]
-    if c["tpl"] == "user+support":
+    if c["tpl"] in ("support", "user+support"):
         a += ["--support-templates", P("stpl")]
     if c["ext"] != "default":
         a += ["--output-extension", c["ext"]]
@@ -493,13 +578,13 @@ def _subjects(c: dict, sb: pathlib.Path) -> typing.List[_Subject]:
     for rel in files:
         subs.append(_Subject("root_dsdl" if rel.startswith(root + "/") else "lookup_dsdl", "sandbox", sb / rel, rel))
     ld = _lang_dir(c["lang"])
-    if c["tpl"] == "builtin":
+    if c["tpl"] in ("builtin", "support"):
         for p in _resource_files(ld / "templates"):
             subs.append(_Subject("template", "builtin", p, str(p.relative_to(ld))))
     else:
         for p in _resource_files(sb / "tpl"):
             subs.append(_Subject("template", "sandbox", p, str(p.relative_to(sb))))
-    if c["tpl"] == "user+support":
+    if c["tpl"] in ("support", "user+support"):
         for p in _resource_files(sb / "stpl"):
             subs.append(_Subject("support_template", "sandbox", p, str(p.relative_to(sb))))
     for p in _resource_files(ld / "support"):
@@ -706,12 +791,35 @@ def evaluate(c: dict, sb: pathlib.Path, only_subject: typing.Optional[str] = Non
             cold_silent = {s.label for s in cold if s.path in originals}
             count("never_loaded_templates_mutated_together")
 
+    layout = layout_of(c)
+
+    def placement(s: _Subject) -> typing.Optional[str]:
+        """Where a template sits relative to the names jinja resolves (layout family only; from the way the sandbox was
+        built, not from nunavut)."""
+        if layout == "top" and c["tpl"] != "support":
+            return None
+        if s.what.endswith("_dsdl") or s.label in REACH:
+            return None
+        if s.origin == "builtin":
+            if s.what == "support_template" and c["tpl"] in ("support", "user+support"):
+                return "builtin_beside_user_dir"
+            return None
+        parts = pathlib.PurePosixPath(s.label).parts  # ("tpl" | "stpl", ..., name)
+        if s.path.suffix != ".j2":
+            return parts[0] + ":near_miss_name" if s.path.name.endswith(".j2.bak") else None
+        if len(parts) == 2:
+            return parts[0] + (":near_miss_name" if parts[1].startswith("old_") else ":top_level")
+        return parts[0] + ":same_name_at_depth_%d" % (len(parts) - 2)
+
     for s in subjects:
         key = str(s.path.resolve())
         count("subjects:" + s.what + ":" + s.origin)
+        place = placement(s)
         if s.label in cold_silent:
             count("not_loaded:" + s.what + ":" + s.origin)
             count("no_influence_shown:" + s.what + ":" + s.origin)
+            if place:
+                count(f"layout:{layout}:{place}:no_influence")
             continue
         if s.label in REACH and li.rc == 0 and key in listed_inputs and stable_hash("power:" + cid + s.label) % 4:
             # A file that --list-inputs already names cannot violate oracle 3; its mutant run only shows that the
@@ -719,6 +827,13 @@ def evaluate(c: dict, sb: pathlib.Path, only_subject: typing.Optional[str] = Non
             # the configurations (a function of the configuration and the file only).
             count("listed_resource_mutant_skipped")
             continue
+        if "layout" in c and li.rc == 0 and key in listed_inputs and not (place and (place.startswith("stpl:") or place == "builtin_beside_user_dir")):
+            # Layout family: the same economy for every file that is already named, except the ones the family is
+            # about (whatever lives in, or is shadowed by, the user support directory): their mutants are always run,
+            # they are what shows which file was really rendered.
+            if stable_hash("power:" + cid + s.label) % 4:
+                count("listed_subject_mutant_skipped_in_layout_family")
+                continue
         if s.what.endswith("_dsdl"):
             original = s.path.read_text()
             if SLOT not in original:
@@ -736,6 +851,8 @@ def evaluate(c: dict, sb: pathlib.Path, only_subject: typing.Optional[str] = Non
                 if s.origin == "builtin":
                     # a virtual mutation acts only through the loader; a file the loader never hands out cannot be
                     # mutated that way (support files that are copied verbatim would need a writable package)
+                    if place:
+                        count(f"layout:{layout}:{place}:not_loaded")
                     continue
                 attempts = attempts[:1]  # one mutation as a check of "never loaded => no influence"
         influence = None
@@ -758,9 +875,13 @@ def evaluate(c: dict, sb: pathlib.Path, only_subject: typing.Optional[str] = Non
                 break
         if influence is None:
             count("no_influence_shown:" + s.what + ":" + s.origin)
+            if place:
+                count(f"layout:{layout}:{place}:no_influence")
             continue
         res["influences"] += 1
         count("influence_shown:" + s.what + ":" + s.origin)
+        if place:
+            count(f"layout:{layout}:{place}:influence")
         if s.label in REACH:
             count("influence_shown_reach:" + s.label.split("/")[0] + ":" + REACH[s.label])
         if li.rc != 0:
@@ -774,6 +895,9 @@ def evaluate(c: dict, sb: pathlib.Path, only_subject: typing.Optional[str] = Non
             sig["suffix"] = s.path.suffix
             if s.label in REACH:
                 sig["reach"] = REACH[s.label]
+            if place:
+                sig["user_dir_layout"] = layout
+                sig["placement"] = place
         report(
             sig,
             f"{s.label} changes the generated output ({influence}) but --list-inputs does not name it  [{cid}]",
@@ -836,6 +960,15 @@ def run(ctx: Ctx) -> int:
     core_ids = {cfg_id(c) for c in core}
     rest = [c for c in space if cfg_id(c) not in core_ids]
     chosen = core + [c for c in rest if ctx.in_slice(cfg_id(c))]
+    # the directory layout family (same rule: fixed core + seed slice; thorough: all of it)
+    family = family_configs()
+    fam_core = family_core(family)
+    fam_core_ids = {cfg_id(c) for c in fam_core}
+    chosen += fam_core + [c for c in family if cfg_id(c) not in fam_core_ids and ctx.in_slice(cfg_id(c))]
+    if len({cfg_id(c) for c in chosen}) != len(chosen):
+        raise HarnessError("configuration ids are not unique")
+    space = space + family
+    core = core + fam_core
     # longest first (py/html and user template sets have the most subjects): better pool balance, same set
     chosen.sort(key=lambda c: (-(c["tpl"] != "builtin") - (c["lang"] in ("html", "cpp")), cfg_id(c)))
     jobs = [(i, c, str(ctx.scratch)) for i, c in enumerate(chosen)]
@@ -847,6 +980,7 @@ def run(ctx: Ctx) -> int:
     status: typing.Dict[str, int] = {}
     nontrivial = 0
     value_seen: typing.Dict[str, set] = {d: set() for d in DIMS}
+    kinds_seen: typing.Set[typing.Tuple[str, str]] = set()
     fail_reasons: typing.Dict[str, int] = {}
     best: typing.Dict[str, typing.Tuple[tuple, typing.Any, int]] = {}
     for r in results:
@@ -865,6 +999,8 @@ def run(ctx: Ctx) -> int:
         outcomes.add(r["outcome"])
         for d in DIMS:
             value_seen[d].add(r["cfg"][d])
+        if "layout" in r["cfg"]:
+            kinds_seen.add((r["cfg"]["tpl"], r["cfg"]["layout"]))
         if r["influences"] > 0:
             nontrivial += 1
         # the case kept per signature is the one in the most ordinary configuration (fewest options off default)
@@ -906,6 +1042,25 @@ def run(ctx: Ctx) -> int:
             missing = [v for v in DOMAINS[d] if v not in value_seen[d]]
             if missing:
                 raise HarnessError(f"vacuous exploration: no successful generation with {d} in {missing}")
+        missing_kinds = [k for k in FAMILY_KINDS if k not in kinds_seen]
+        if missing_kinds:
+            raise HarnessError(f"vacuous exploration: no successful generation with the directory layouts {missing_kinds}")
+        # The layout family means something only if (a) with nothing but same-named files at other depths in the
+        # user support directory the BUILT-IN support template was the one rendered (its mutation changed the output),
+        # (b) with a top-level file next to them that file was, and (c) the copies of a support directory never were.
+        for need in (
+            "layout:nested:builtin_beside_user_dir:influence",
+            "layout:mixed:stpl:top_level:influence",
+            "layout:top:stpl:top_level:influence",
+            "layout:mixed:tpl:top_level:influence",
+            "layout:nested:stpl:same_name_at_depth_1:no_influence",
+            "layout:nested:stpl:same_name_at_depth_2:no_influence",
+            "layout:mixed:stpl:same_name_at_depth_1:no_influence",
+            "layout:mixed:stpl:near_miss_name:no_influence",
+            "layout:mixed:tpl:same_name_at_depth_1:no_influence",
+        ):
+            if ctx.stats.get(need, 0) == 0:
+                raise HarnessError(f"vacuous exploration: the directory layout family never showed {need}")
         for need in ("root_dsdl:sandbox", "lookup_dsdl:sandbox", "template:sandbox", "template:builtin", "support_template:sandbox", "support_template:builtin"):
             if ctx.stats.get("influence_shown:" + need, 0) == 0:
                 raise HarnessError(f"vacuous exploration: no mutation of a {need} file ever changed the output")
@@ -937,7 +1092,10 @@ def run(ctx: Ctx) -> int:
         "changed an output byte (configurations are distinct by construction: one per point of the option product); "
         "distinct_outcomes = distinct (language, set of relative output paths)",
         "bound_completed": f"{len(chosen)}/{len(space)} points of lang x generate-support x pod x namespace-types x "
-        f"templates x extension x namespace-stem x namespace-set (core {len(core)} + seed slice); per point: 4 no-write "
+        f"templates x extension x namespace-stem x namespace-set plus the {len(family)} points of the directory layout family "
+        f"lang x generate-support x pod x {{support dir: top/nested/mixed; templates+support dirs: nested/mixed; templates "
+        f"dir: mixed}} with same-named copies under {'/ '.join(NEST_DIRS)}/ <lang>/ "
+        f"(core {len(core)} + seed slice); per point: 4 no-write "
         "modes x {outdir absent, populated}, 2 real runs, one mutation run per DSDL file and one or two per "
         "template/support file",
         "exhaustive": bool(ctx.thorough),
@@ -954,6 +1112,9 @@ def run(ctx: Ctx) -> int:
             "built-in templates are mutated as read through DSDLTemplateLoader.get_source (harness-side wrapper), never "
             "on disk; a built-in file the loader never hands out is assumed not to influence the output",
             "only the sandbox directory and the language's built-in package directory are watched for writes",
+            "directory layouts: same-named copies at depth 1 and 2 in five folders and two near-miss names per template stand "
+            "for all placements of a file that does not override; in the layout family the options generate-namespace-types, "
+            "output-extension, namespace-stem and the namespace set rotate with the index instead of being multiplied",
             "wall clock replaced by a constant (nunavut.jinja.datetime, gzip.time); caches reset before every CLI call",
         ],
         min_outcomes=("distinct_outcomes", 12),
